@@ -82,6 +82,10 @@ func c10Round3(c *Ctx) {
 		c.Check(f.OK, "R10j", f.Key, f.Pos, f.Detail, f.Detail)
 	}
 	c.runControl("R10j verdict cache control (ctl/memo.Verify)", "memo.", verdictState)
+	c.Rule("R10k", "a key's timestamp settings are the configured ones: Config.GetKey returns the table entry itself and nothing assigns KeyConfig.Timestamp / Timestamper", 2)
+	for _, f := range keyTimestampSettingsAsConfigured(p) {
+		c.Check(f.OK, "R10k", f.Key, f.Pos, "", f.Detail)
+	}
 }
 
 // insideParam: addr is &param.….X[i]…: reached from a pointer parameter through field and element
